@@ -99,6 +99,15 @@ theorem clean_drift_witness :
       rabs (330 - (390 + (270 - 390) * ((1100 + 81 / 1000000) - 500) / ((1700 + 324 / 1000000) - 500))) := by
   decide +kernel
 
+/-- **A repeated point no longer hides the corner it sits on** (fix bdc25b9; kernel-decided): the
+    utility grand composite curve of a site whose table, rounded for output, lists 47.0 and 46.99
+    twice — the corner `(0, 46.99)` between the zero run and the cold utility is kept. -/
+theorem repeated_point_keeps_corner :
+    cleanCurve (1 / 1000000) [3911 / 10, 391, 47, 47, 4699 / 100, 4699 / 100, 4689 / 100, 43]
+      [18081, 0, 0, 0, 0, 0, 6481, 6481]
+      = .ok [(18081, 3911 / 10), (0, 391), (0, 4699 / 100), (6481, 4689 / 100)] := by
+  decide +kernel
+
 /-! ### non-vacuity -/
 
 /-- A kinked profile: the kink is kept, the collinear points are dropped. -/
